@@ -1714,7 +1714,7 @@ mod htmltree {
     /// t (text with < and &) c(omment) q (PI) Q (PI with '>'); root kind may also be D (document with the children directly),
     /// T (a detached text node), F (fragment: children directly under a document node)
     pub fn inputs(large: bool) -> Vec<String> {
-        let kids = ['p', 'P', 'b', 'B', 'i', 's', 'S', 'x', 'm', 'v', 'f', 't', 'c', 'q', 'Q'];
+        let kids = ['p', 'P', 'b', 'B', 'i', 's', 'S', 'x', 'm', 'v', 'f', 't', 'u', 'c', 'q', 'Q'];
         let mut seqs: Vec<String> = vec![String::new()];
         let mut frontier = seqs.clone();
         for _ in 0..(if large { 3 } else { 2 }) { let mut next = Vec::new(); for s in &frontier { for k in kids { next.push(format!("{}{}", s, k)); } } seqs.extend(next.iter().cloned()); frontier = next; }
@@ -1731,7 +1731,7 @@ mod htmltree {
             's' => el(xot, "script", ""), 'S' => el(xot, "STYLE", ""), 'x' => el(xot, "blink", ""),
             'm' => el(xot, "math", "http://www.w3.org/1998/Math/MathML"), 'v' => el(xot, "svg", "http://www.w3.org/2000/svg"),
             'f' => { let e = el(xot, "frob", "urn:foreign"); let p = xot.add_prefix("f"); let u = xot.add_namespace("urn:foreign"); xot.namespaces_mut(e).insert(p, u); e }
-            't' => xot.new_text("a<b&c"), 'c' => xot.new_comment("k"),
+            't' => xot.new_text("a<b&c"), 'u' => xot.new_text("x<y"), 'c' => xot.new_comment("k"),
             'q' => { let t = xot.add_name("pi"); xot.new_processing_instruction(t, Some("d")) }
             'Q' => { let t = xot.add_name("pi"); xot.new_processing_instruction(t, Some("a>b")) }
             _ => return None })
@@ -1746,17 +1746,19 @@ mod htmltree {
             let root = match rk { 'D' | 'F' => xot.new_document(), 'T' => xot.new_text("a<b&c"), k => mk(&mut xot, k)? };
             let mut has_bad_pi = false;
             let mut text_parents: Vec<char> = Vec::new();
+            let mut lt_parents: Vec<char> = Vec::new();
             for k in f[1].chars() {
                 let n = mk(&mut xot, k)?;
                 if xot.append(root, n).is_err() { return None; }
                 if k == 'Q' { has_bad_pi = true; }
                 if k == 't' { text_parents.push(rk); }
+                if k == 'u' { lt_parents.push(rk); }
             }
             let params = xot::output::html5::Parameters { indentation: if f[2] == "1" { Some(Default::default()) } else { None }, ..Default::default() };
             let out = xot.html5().serialize_string(params, root);
-            Some((out.map_err(|e| format!("{:?}", e)), has_bad_pi, text_parents, rk))
+            Some((out.map_err(|e| format!("{:?}", e)), has_bad_pi, text_parents, lt_parents, rk))
         });
-        let (out, has_bad_pi, text_parents, rk) = match r { Err(_) => return Some(format!("HTML5 serialisation of {} panics", input)), Ok(None) => return None, Ok(Some(x)) => x };
+        let (out, has_bad_pi, text_parents, lt_parents, rk) = match r { Err(_) => return Some(format!("HTML5 serialisation of {} panics", input)), Ok(None) => return None, Ok(Some(x)) => x };
         let s = match out { Err(e) => { return if has_bad_pi { None } else { Some(format!("{}: refused although nothing forbids it: {}", input, e)) } } Ok(s) => s };
         if has_bad_pi { return Some(format!("{}: a processing instruction containing '>' was emitted: {:?}", input, s)); }
         if !s.starts_with("<!DOCTYPE html>") { return Some(format!("{}: output does not start with the HTML doctype: {:?}", input, s)); }
@@ -1770,6 +1772,8 @@ mod htmltree {
         // '<' and '&' from text raw only inside script / style
         let raw_expected = text_parents.iter().filter(|p| **p == 's').count();
         if s.matches("a<b&c").count() != raw_expected { return Some(format!("{}: raw '<' / '&' from text {} time(s), expected {} (script / style only): {:?}", input, s.matches("a<b&c").count(), raw_expected, s)); }
+        let raw_lt = lt_parents.iter().filter(|p| **p == 's').count();
+        if s.matches("x<y").count() != raw_lt { return Some(format!("{}: raw '<' from text {} time(s), expected {} (script / style only): {:?}", input, s.matches("x<y").count(), raw_lt, s)); }
         let _ = rk;
         None
     }
